@@ -102,7 +102,7 @@ def C02(ctx):
     model_check(ctx, "RobinHood", "MC_RobinHood_ascoded.cfg", "regression: grow() as originally coded loses the robin-hood invariant",
                 workers=2, expect_violation=True)
     if not ctx.quick:
-        model_check(ctx, "RobinHood", "MC_RobinHood_big.cfg", "6 keys, cap 2->16", workers=16, timeout=3000, xmx="24g")
+        model_check(ctx, "RobinHood", "MC_RobinHood_big.cfg", "6 keys, cap 2->16", workers=16, timeout=3000, xmx="8g")
     # spec -> impl: every behaviour of the bounded model replayed into the real table
     gen_and_replay(ctx, "GenTable", "GenTable.cfg" if ctx.quick else "GenTable_big.cfg", "table",
                    "all get_or_insert sequences of the bounded RobinHood model")
